@@ -985,7 +985,7 @@ func TestCheck(t *testing.T) {
 		"outcome_classes":               classes.Top(60),
 		"exhaustive":                    true,
 		"samples":                       samples,
-		"rule":                          "journals: every file-operation boundary of 6-7 transaction shapes x geometries x start sizes, plus 3 torn variants of every journal write; every header field of every segment := {0,1,0xffffffff,v+1,v-1,neighbour}, record pgno := 6 values, checksum/data flips, zeroed header/sector, damaged magic, every truncation class, short constant files. WALs: 3 base logs x 2 byte orders x 2 page sizes; every header and frame-header field := {0,1,0xffffffff,v+1}, data flips, salt swaps, every truncation class, constant files. Each input is opened by a fresh Store (states = opens).",
+		"rule":                          "journals: every file-operation boundary of 6-10 transaction shapes (incl. first segments ending before, on and after a sector boundary) x geometries x start sizes, plus 3 torn variants of every journal write; every header field of every segment := {0,1,0xffffffff,v+1,v-1,neighbour}, record pgno := 6 values, checksum/data flips, zeroed header/sector, damaged magic, every truncation class, short constant files. WALs: 3 base logs x 2 byte orders x 2 page sizes; every header and frame-header field := {0,1,0xffffffff,v+1}, data flips, salt swaps, every truncation class, constant files. Each input is opened by a fresh Store; each WAL also without its transaction files and under a running store followed by Store.Recover (states = opens).",
 	}
 	if classes.N() < 4 && run.NViolations() == 0 {
 		run.HarnessError("vacuous: %d classes", classes.N())
